@@ -6,13 +6,13 @@ package analyzer
 
 // ---- entry points ---------------------------------------------------------------------------------------------------
 // What the go/analysis driver guarantees when it calls a checker's Run (ASSUMED of the driver, given the Requires lists
-// and the results proved for runConfig / runAnnotationReader / runIgnoreReader below): the pass has a package, and the
+// and the results proved for runConfig / runAnnotationReader / runIgnoreReader below): the pass has a package and a file set, and the
 // results of the required analyzers are in pass.ResultOf with their declared result types.
 //@ macro func cfgOf(pass *analysis.Pass) *config.Config = cast(pass.ResultOf[ConfigReader], *config.Config)
 //@ macro func ignOf(pass *analysis.Pass) *util.IgnoreSet = unbox(pass.ResultOf[IgnoreReader], ignore.IgnoreResult).IgnoreSet
 //@ macro func annOf(pass *analysis.Pass) annotations.PackageAnnotations = unbox(pass.ResultOf[AnnotationReader], annotations.PackageAnnotations)
 //@ macro func hasAnn(pass *analysis.Pass) bool = pass.ResultOf[AnnotationReader] != nil && dyntype(pass.ResultOf[AnnotationReader]) == tagof(annotations.PackageAnnotations)
-//@ macro func driverCfg(pass *analysis.Pass) bool = pass.Pkg != nil && pass.ResultOf != nil && pass.ResultOf[ConfigReader] != nil && dyntype(pass.ResultOf[ConfigReader]) == tagof(*config.Config)
+//@ macro func driverCfg(pass *analysis.Pass) bool = pass.Pkg != nil && pass.Fset != nil && pass.ResultOf != nil && pass.ResultOf[ConfigReader] != nil && dyntype(pass.ResultOf[ConfigReader]) == tagof(*config.Config)
 //@ macro func driverOK(pass *analysis.Pass) bool = driverCfg(pass) && dyntype(pass.ResultOf[IgnoreReader]) == tagof(ignore.IgnoreResult) && (ignOf(pass) != nil ==> isetInv(ignOf(pass)))
 
 // C06: on every path on which the annotation reader's result is available the checker exports exactly one fact, of its
